@@ -341,7 +341,8 @@ func DirectiveUnionState(l *lexer) stateFn {
 	}
 	l.backup()
 	level := 0
-	if !l.acceptWord("{") {
+	// the body may start right after the brace: no white space is needed there
+	if l.next() != '{' {
 		l.error("union directive need { to start")
 		return nil
 	}
